@@ -57,9 +57,34 @@ def gen():
         op = st.one_of(upd, upd, upd, upd, upd, pair, st.tuples(st.just("repeat"), st.integers(0, 20)), st.tuples(st.just("repeat"), st.integers(0, 20)), st.tuples(st.just("extract"), st.integers(0, 20)),
                        st.tuples(st.just("logprob"), st.integers(0, 20))).map(list)
         return {"spec": spec, "ops": draw(st.lists(op, min_size=4, max_size=12)), "pending": draw(st.booleans()), "clash": draw(st.booleans()),
-                "dep_bij": draw(st.booleans()), "int_var": draw(st.booleans()), "user_lp": draw(st.integers(0, 3)) == 0, "alias": draw(st.integers(0, 3)) == 0, "hi": [draw(st.sampled_from([1.5, 2.5, 3.0])) for _ in range(4)]}
+                "dep_bij": draw(st.booleans()), "int_var": draw(st.booleans()), "user_lp": draw(st.integers(0, 3)) == 0, "bool_var": draw(st.booleans()), "extra_node": draw(st.booleans()), "alias": draw(st.integers(0, 3)) == 0, "hi": [draw(st.sampled_from([1.5, 2.5, 3.0])) for _ in range(4)]}
 
     return g()
+
+
+class ExtraNode(lsl.Node):
+    """a user-defined node that keeps extra information in its state (documented: subclasses can add extra information to the state)"""
+
+    def __init__(self, inp, _name=""):
+        super().__init__(inp, _name=_name)
+        self._extra = None
+
+    def update(self):
+        v = jnp.sum(jnp.asarray(self.inputs[0].value, dtype=jnp.float32))
+        self._value = 2.0 * v
+        self._extra = (v + 1.0, jnp.sqrt(1.0 + v * v))
+        self._outdated = False
+        return self
+
+    @property
+    def state(self):
+        from liesel.model.nodes import NodeState
+
+        return NodeState(self.value, self.outdated, self._extra)
+
+    @state.setter
+    def state(self, state):
+        self._value, self._outdated, self._extra = state.value, state.outdated, state.extra
 
 
 def state_values(state):
@@ -78,6 +103,10 @@ def compare_states(got, exp, exact, tag, det):
         a, b = np.asarray(gv, dtype=np.float64), np.asarray(ev, dtype=np.float64)
         ok = a.shape == b.shape and (np.array_equal(a, b, equal_nan=True) if exact else np.allclose(a, b, rtol=2e-6, atol=2e-6, equal_nan=True))
         require(bool(ok), tag + "not-the-state-of-direct-assignment", lambda: f"node {k}: got {a.tolist()} direct {b.tolist()}; {det()}")
+        ge, ee = got[k].extra, exp[k].extra
+        if ge is not None or ee is not None:
+            ok = ge is not None and ee is not None and len(ge) == len(ee) and all(np.allclose(np.asarray(x), np.asarray(y), rtol=2e-6, atol=2e-6) for x, y in zip(ge, ee))
+            require(bool(ok), tag + "extra-state-of-node-not-that-of-direct-assignment", lambda: f"node {k}: extra {ge} direct {ee}; {det()}")
 
 
 def oracle(case):
@@ -105,6 +134,13 @@ def oracle(case):
             dose = lsl.Var(np.array([1, 2, 3], dtype=np.int32), name="dose")
             eff = lsl.Var(lsl.Calc(lambda d: jnp.sum(jnp.asarray(d, dtype=jnp.float32)) / 4.0, dose), name="dose_effect")
             gb.add(lsl.obs(np.float32(0.2), lsl.Dist(tfd.Normal, loc=eff, scale=np.float32(1.0)), name="wd"))
+        if case.get("bool_var"):
+            # a node whose value is the Python singleton True (a switch), next to a per-observation likelihood with a vector log-density
+            flag = lsl.Var(True, name="use_offset")
+            offs = lsl.Calc(lambda f: jnp.where(f, jnp.float32(0.5), jnp.float32(0.0)), flag)
+            gb.add(lsl.obs(np.array([0.1, 0.2, 0.3], dtype=np.float32), lsl.Dist(tfd.Normal, loc=offs, scale=np.float32(1.0)), name="wf"))
+        if case.get("extra_node"):
+            gb.add(ExtraNode(lvars[-1], _name="extra_node"))
         if case.get("user_lp"):
             # user-supplied joint density (GraphBuilder.log_prob_node): a tempered sum of the generated variables' log-densities
             dns = [v.dist_node for v in lvars if v.dist_node is not None]
